@@ -165,7 +165,12 @@ pub fn execute(p: &Prog) -> Vec<String> {
                 out.push(match op {
                     CurveOp::Extrapolate(h) => fmt_res(guard_with_budget(budget, || cur.extrapolate(d(*h)))),
                     CurveOp::ExtrapolateSteps(n) => fmt_res(guard_with_budget(budget, || cur.extrapolate_steps(*n))),
-                    CurveOp::WithBound(x, n) => fmt_res(guard_with_budget(budget, || cur.extrapolate_with_bound((d(*x), *n)))),
+                    // a bound is extra knowledge about the process, so it is consistent with what the curve
+                    // already knows: the interval length is at least one more than the largest known distance
+                    CurveOp::WithBound(extra, n) => fmt_res(guard_with_budget(budget, || {
+                        let delta = cur.min_distance(usize::MAX) + d(1 + *extra);
+                        cur.extrapolate_with_bound((delta, *n))
+                    })),
                     CurveOp::MinDistance(n) => fmt_res(guard_with_budget(budget, || du(cur.min_distance(*n)))),
                 });
                 out.push(fmt_res(guard_with_budget(budget, || queries.iter().map(|x| cur.number_arrivals(d(*x))).collect::<Vec<_>>())));
@@ -412,7 +417,7 @@ fn prog_strategy(tier: Tier) -> BoxedStrategy<Prog> {
                 prop_oneof![
                     3 => (0u64..600).prop_map(CurveOp::Extrapolate),
                     2 => (0usize..40).prop_map(CurveOp::ExtrapolateSteps),
-                    2 => (1u64..300, 0usize..12).prop_map(|(x, n)| CurveOp::WithBound(x, n)),
+                    2 => (0u64..300, 0usize..12).prop_map(|(x, n)| CurveOp::WithBound(x, n)),
                     1 => prop_oneof![0usize..40, Just(usize::MAX)].prop_map(CurveOp::MinDistance),
                 ],
                 1..5
